@@ -250,13 +250,29 @@ func c06Append(r *vres.Report, maxN, clients int) {
 	start := time.Now()
 	var evals int64
 	moves := make([]int, maxN+1)
-	for _, scheme := range []string{"ascending", "descending", "mixed"} {
+	// the strategy is reached either from the configuration file or by a switch at run time
+	// (admin API) from another strategy, at the start or after three backends exist
+	for _, scheme := range []string{"ascending", "descending", "mixed", "ascending/switched", "mixed/switched-at-3"} {
+		how := ""
+		if i := strings.Index(scheme, "/"); i >= 0 {
+			scheme, how = scheme[:i], scheme[i+1:]
+		}
 		names := c06NameSchemes[scheme]
+		scheme := scheme + map[bool]string{true: " (" + how + ")", false: ""}[how != ""]
 		vh.RunSeq(r, "C06/sequential", func(s *vrt.Sched) {
-			cfg := kitConfig(kitOpts{Strategy: "ip_hash_consistent", N: 1})
+			first := "ip_hash_consistent"
+			if how != "" {
+				first = "round_robin"
+			}
+			cfg := kitConfig(kitOpts{Strategy: first, N: 1})
 			cfg.Backends[0].Name = names[0]
 			cfg.Backends[0].Address = "http://" + strings.ToLower(names[0]) + ".test:80"
 			k := newKitCfg(s, cfg)
+			if how == "switched" {
+				if err := k.lb.SetStrategy("ip_hash_consistent"); err != nil {
+					vh.ToolError("switch: %v", err)
+				}
+			}
 			prev := make([]int, clients)
 			addr := func(c int) string { return fmt.Sprintf("10.%d.%d.%d", c>>16&255, c>>8&255, c&255) }
 			for n := 1; n <= maxN; n++ {
@@ -266,6 +282,20 @@ func c06Append(r *vres.Report, maxN, clients int) {
 						vh.ToolError("add: %v", err)
 					}
 					k.adopt(k.backendByName(name))
+				}
+				if how == "switched-at-3" {
+					if n < 3 {
+						continue
+					}
+					if n == 3 {
+						if err := k.lb.SetStrategy("ip_hash_consistent"); err != nil {
+							vh.ToolError("switch: %v", err)
+						}
+						for c := 0; c < clients; c++ {
+							prev[c], _ = servedIndex(k, addr(c*7+1))
+						}
+						continue
+					}
 				}
 				for c := 0; c < clients; c++ {
 					got, _ := servedIndex(k, addr(c*7+1))
@@ -285,8 +315,8 @@ func c06Append(r *vres.Report, maxN, clients int) {
 			}
 		})
 	}
-	r.AddScenario(vres.Scenario{Name: "consistent-append-history", Engine: "H", Executions: 3, States: int64(3 * maxN), Transitions: evals, Outcomes: maxN,
-		Bound: fmt.Sprintf("append history 1->%d under three naming schemes (names sorting in append order, in reverse, in neither), %d enumerated client addresses re-asked after every append", maxN, clients), Exhaustive: true,
+	r.AddScenario(vres.Scenario{Name: "consistent-append-history", Engine: "H", Executions: 5, States: int64(5 * maxN), Transitions: evals, Outcomes: maxN,
+		Bound: fmt.Sprintf("append history 1->%d under three naming schemes (names sorting in append order, in reverse, in neither), with the strategy configured or switched to at run time, %d enumerated client addresses re-asked after every append", maxN, clients), Exhaustive: true,
 		Sample: map[string]interface{}{"clients_moved_at_each_append": moves}, Extra: map[string]interface{}{"wall_s": time.Since(start).Seconds()}})
 }
 
